@@ -3,7 +3,26 @@
 import json, os, sys, subprocess
 ROOT = os.path.dirname(os.path.dirname(os.path.abspath(__file__)))
 sys.path.insert(0, os.path.join(ROOT, "lib"))
-from props import PROPS, TIE_CODE, WINDOWS
+from props import PROPS, TIE_CODE, WINDOWS, EXTRA_FILES
+EXTRA_DESC = {
+    "Kanal/Own.lean": "Own (a call touches another thread's signal only if it popped it, at most once, and leaves no popped waiter without its final store)",
+    "Kanal/NoDangle.lean": "NoDangle (no call returns and no future's Drop ends while a peer can still touch its signal; only a Pending poll may leave exposed)",
+    "Kanal/Disp.lean": "Disp (the value passed to a send is disposed of exactly once on every path: never left in a MaybeUninit at return, never dropped after the peer took it)",
+    "Kanal/Deliver.lean": "Deliver (a value the receive family takes out of the channel is delivered exactly once: nothing invented, lost or duplicated; drain_into's count is the number pushed)",
+    "Kanal/WakerReg.lean": "WakerReg (every Pending poll leaves the waker it was given stored; the waker slot is written only unexposed or under the lock with the signal still listed)",
+    "Kanal/TieDiscipline.lean": "TieDiscipline (Own and NoDangle restated on the translated definitions)",
+    "Kanal/TiePtr.lean": "TiePtr (pointer.rs translated: its operation lists compute the byte model's functions for every size, memory and word; a by-value argument is consumed exactly once)",
+    "Kanal/Props/C07Pin.lean": "C07Pin (neither future is Unpin, whatever T; structural Unpin derivation over the extracted fields, cross-checked by 14 rustc probes)",
+    "Kanal/Refine/Exec.lean": "Refine (every segment-atomic execution of the code model is an execution of the channel model with the same results: code_refines_spec, all labels covered, bridge hypotheses discharged from reachability)",
+    "Kanal/Refine/Mach.lean": "Refine.Mach (the same for the closed machine that parks and resumes the continuations the code hands back)",
+    "Kanal/Refine/Raw.lean": "Refine.Raw (the same without normalising finished futures' slots: no segment ever reads a stale slot)",
+    "Kanal/Bridge.lean": "Bridge / Bridge2 (each tree of the fine-grained model read sequentially = Spec.step, label by label)",
+    "Kanal/Sections.lean": "Machine / Sections / SpecSections (in every interleaving the logical state moves by whole critical sections, which are the Chan functions Spec.step applies)",
+    "Kanal/TieProto.lean": "TieProto / TiePaths / ProtoSim (signal.rs, mutex.rs and spin_cond translated to protocol trees on every run and proved conformant to the protocol models; every execution of the translated code is an execution of the model)",
+    "Kanal/Props/RealTime.lean": "RealTime (the property's real-time phrasing over executions)",
+    "Kanal/Props/C14Fine.lean": "C14Fine (the realtime variants on the translated code: one try_lock, busy => not done, never waits)",
+    "Kanal/Props/C06Fair.lean": "C06Fair / C06Chan / C06Async (eventual completion under weak fairness)",
+}
 from manifest_text import TEXT, NOT_YET
 ids = [json.loads(l)["id"] for l in open(os.path.join(ROOT, "properties.jsonl"))]
 hooks_commits = []
@@ -22,6 +41,9 @@ for pid in ids:
                                 f"functions as the channel model (Kanal/TieCode.lean, {len(set(TIE_CODE[pid])) + 2} theorems among this check's obligations).")
             t["technique"] += " + Rust-to-Lean translation of the lock-holding code proved equal to the model on every run"
             t["level_note"] += " The translator (parser, lowering, effect tables) is trusted to the extent described in DESIGN.md §4.1b."
+        extra = [EXTRA_DESC[f] for f in EXTRA_FILES.get(pid, []) if f in EXTRA_DESC]
+        if extra:
+            t["level_text"] += " Further theorem files among this check's obligations (each ends with its own #print axioms audit): " + "; ".join(extra) + "."
         if pid in WINDOWS:
             t["level_text"] += f" Scheduled runs include systematic single-preemption sweeps of {len(WINDOWS[pid])} race templates (DESIGN.md §4.3.2)."
         checks.append({
